@@ -419,6 +419,11 @@ def native_replay(ctx):
     wd = os.path.join(SCRATCH, "c20replay-src")
     subprocess.run(["rsync", "-a", "--delete", "--exclude", "target", "--exclude", "Cargo.lock", crate + "/", wd + "/"], check=True)
     shutil.copy(os.path.join(REPO, "Cargo.lock"), os.path.join(wd, "Cargo.lock"))
+    if REPO != "/repo":
+        # seeded runs (VERIF_REPO): the replay tool must be built against the same checkout as the MIR dump
+        ct = os.path.join(wd, "Cargo.toml")
+        txt = open(ct).read().replace('"/repo/', '"' + REPO.rstrip("/") + "/")
+        open(ct, "w").write(txt)
     p = subprocess.run(["cargo", "build", "--release", "--offline"], cwd=wd, env=env, stdout=subprocess.PIPE, stderr=subprocess.STDOUT, text=True)
     if p.returncode != 0:
         for v in ctx.violations:
